@@ -1,4 +1,7 @@
 //! pv <runner> [--seed N] [--cases N] [--out DIR] [--thorough] [--corpus FILE]
+#[global_allocator]
+static ALLOC: pv::util::CountingAlloc = pv::util::CountingAlloc;
+
 fn main() {
     let argv: Vec<String> = std::env::args().collect();
     if argv.len() < 2 {
@@ -17,6 +20,8 @@ fn main() {
         "c02" => pv::connrun::run_c02(&args),
         "c03" => pv::connrun::run_c03(&args),
         "c10" => pv::connrun::run_c10(&args),
+        "c04" => pv::byterun::run_c04(&args),
+        "c08" => pv::byterun::run_c08(&args),
         other => {
             eprintln!("unknown runner {other}");
             std::process::exit(2);
